@@ -575,6 +575,9 @@ func routeRegistryRun(w *World) {
 			if n == "z" {
 				return nil, nil
 			}
+			if n == "e" {
+				return nil, status.Error(codes.Unavailable, "dial e: refused") // a factory that fails outright
+			}
 			nextID++
 			c := &regClient{id: fmt.Sprintf("f%d", nextID)}
 			if cur := w.lookup(goid()); cur != nil {
@@ -597,7 +600,7 @@ func routeRegistryRun(w *World) {
 		changes = append(changes, change{c.Name, idOf(c.Old), idOf(c.New), c.Auto})
 	}))
 	r := router.NewRouter(opts...)
-	names := []string{"a", "b", "z"}
+	names := []string{"a", "b", "z", "e"}
 	nt := 1 + t.Choose(3)
 	type rec struct {
 		task     string
@@ -643,8 +646,8 @@ func routeRegistryRun(w *World) {
 				case "get":
 					c, err := r.Get(o.Name)
 					x.res.Code = errCode(err)
-					if err == nil {
-						x.res.Client = idOf(c)
+					if c != nil {
+						x.res.Client = idOf(c) // (also next to an error: an answer is a client or an error, never both)
 					}
 				}
 				x.res.Produced = produced
@@ -707,6 +710,12 @@ func routeRegistryRun(w *World) {
 					}
 				case hasFallback && o.Name == "b":
 					if res.Code != codes.OK || res.Client != "fallback:b" {
+						return false, state
+					}
+				case hasFactory && o.Name == "e":
+					// the factory fails: nothing can be found or created, which is NotFound by the documented contract - and
+					// certainly no client next to an error
+					if res.Code != codes.NotFound || res.Client != "" {
 						return false, state
 					}
 				case hasFactory && o.Name != "z":
